@@ -106,7 +106,7 @@ type gscript struct {
 	updates     int
 	sig         string
 	endVerdict  string // "" or the verdict an extra last line forces ("fail", "skip") after the updates were recorded
-	setupCd     bool // Params.Setup moves the script's starting directory to $WORK/startdir (as cmd/go's tests do)
+	setupCd     bool   // Params.Setup moves the script's starting directory to $WORK/startdir (as cmd/go's tests do)
 }
 
 func gen(r *rand.Rand, idx int) *gscript {
